@@ -710,6 +710,10 @@ impl Core {
         self.context.clone()
     }
 
+    pub(crate) fn verif_make_forwarder(&self) -> Box<dyn Forwarder> {
+        Self::make_forwarder(self.context.clone())
+    }
+
     /// `true` = the connection is admitted by the filtering rules
     pub fn verif_evaluate_connection_rules(
         &self,
